@@ -9,7 +9,8 @@ NOTE = ("(a) all 2^6 override subsets x migrate x reply x replies-feature x gene
         "the real entry_points macro in-process: set of emitted functions and per-function token hashes (an override must not alter another entry "
         "point) judged by TLC; (b) the routing corpus incl. programs O1-O7 with user-supplied entry point functions: every document goes through "
         "the generated entry point functions (context and outcome forwarded) and through the multitest Contract impl (an overridden kind reaches the "
-        "user's function, the others the generated code); (c) programs without the replies feature (L1, L2 of the reply corpus): every reply, "
+        "user's function, the others the generated code); (c) programs without the replies feature (L1-L4 of the reply corpus; the reply method of L4 "
+        "returns the standard error type, the entry point the contract's): every reply, "
         "whatever its id and outcome, is handed whole to the single reply method by the reply entry point and the multitest impl")
 
 
